@@ -1071,6 +1071,154 @@ def pinned_parameter_names(index):
     return done
 
 
+# ---- new optional parameters read at their default ----------------------------------------------------------------------------------
+def specialise_default_parameters(index):
+    """A function of the pinned tree that gained a parameter with a constant default, which no call site in the package passes,
+    behaves for every caller the properties speak about as it does at that default.  The body is read at the default: a top-level
+    `if` whose test is decided by the default (`p is None`, `p is not None`, `p`, `not p`, `p == K`) is replaced by the arm taken,
+    and what follows an arm that returns or raises is dropped.  Reading stops at the first statement that rebinds the parameter.
+    The parameter stays in the signature."""
+    import json
+    import os
+    with open(os.path.join(os.path.dirname(__file__), "anchor_sigs.json")) as f:
+        pinned = json.load(f)
+    done = {}
+    # names passed by keyword anywhere, and the largest positional count per callee name
+    kw_passed = {}
+    pos_count = {}
+    star_calls = set()
+    for g in index.all_functions():
+        for n in ast.walk(g.node):
+            if isinstance(n, ast.Call):
+                name = n.func.attr if isinstance(n.func, ast.Attribute) else (n.func.id if isinstance(n.func, ast.Name) else None)
+                for k in n.keywords:
+                    if k.arg is None:
+                        star_calls.add(name)
+                    else:
+                        kw_passed.setdefault(name, set()).add(k.arg)
+                if any(isinstance(a_, ast.Starred) for a_ in n.args):
+                    star_calls.add(name)
+                pos_count[name] = max(pos_count.get(name, 0), len(n.args))
+
+    def const_of(d):
+        if isinstance(d, ast.Constant) and (d.value is None or isinstance(d.value, (bool, int, str))):
+            return d.value
+        return const_of
+
+    def fold(test, pname, val):
+        """Truth of `test` when the parameter holds its default; None when not decided."""
+        if isinstance(test, ast.Name) and test.id == pname:
+            return bool(val)
+        if isinstance(test, ast.UnaryOp) and isinstance(test.op, ast.Not):
+            r = fold(test.operand, pname, val)
+            return None if r is None else not r
+        if isinstance(test, ast.Compare) and len(test.ops) == 1 and isinstance(test.left, ast.Name) and test.left.id == pname and \
+                isinstance(test.comparators[0], ast.Constant):
+            k = test.comparators[0].value
+            op = test.ops[0]
+            if isinstance(op, ast.Is):
+                return val is k if (k is None or isinstance(k, bool)) else None
+            if isinstance(op, ast.IsNot):
+                return val is not k if (k is None or isinstance(k, bool)) else None
+            if isinstance(op, ast.Eq) and type(val) is type(k):
+                return val == k
+            if isinstance(op, ast.NotEq) and type(val) is type(k):
+                return val != k
+        return None
+
+    def rebinds(st, pname):
+        return any(isinstance(n, ast.Name) and n.id == pname and isinstance(n.ctx, (ast.Store, ast.Del)) for n in ast.walk(st))
+
+    def terminates(block):
+        return bool(block) and isinstance(block[-1], (ast.Return, ast.Raise))
+
+    def read_block(stmts, pname, val):
+        """-> (new statements, changed, stopped)"""
+        out = []
+        changed = False
+        for i_, st in enumerate(stmts):
+            if rebinds(st, pname):
+                return out + stmts[i_:], changed, True
+            if isinstance(st, ast.If):
+                r = fold(st.test, pname, val)
+                if r is not None:
+                    arm = st.body if r else st.orelse
+                    arm2, _, stopped = read_block(list(arm), pname, val)
+                    out.extend(arm2)
+                    changed = True
+                    if terminates(arm2):
+                        return out, True, True
+                    if stopped:
+                        return out + stmts[i_ + 1:], True, True
+                    continue
+            if any(isinstance(n, ast.Name) and n.id == pname and isinstance(n.ctx, ast.Load) for n in ast.walk(st)):
+                st = Subst(pname, val).visit(st)
+                changed = True
+            out.append(st)
+        return out, changed, False
+
+    class Subst(ast.NodeTransformer):
+        """The parameter read as its default; `bool(K)` / `not K` of the constant folded."""
+        def __init__(self, pname, val):
+            self.pname, self.val = pname, val
+
+        def visit_Name(self, node):
+            if node.id == self.pname and isinstance(node.ctx, ast.Load):
+                return ast.copy_location(ast.Constant(value=self.val), node)
+            return node
+
+        def visit_Call(self, node):
+            self.generic_visit(node)
+            if isinstance(node.func, ast.Name) and node.func.id == "bool" and len(node.args) == 1 and not node.keywords and \
+                    isinstance(node.args[0], ast.Constant):
+                return ast.copy_location(ast.Constant(value=bool(node.args[0].value)), node)
+            return node
+
+        def visit_UnaryOp(self, node):
+            self.generic_visit(node)
+            if isinstance(node.op, ast.Not) and isinstance(node.operand, ast.Constant):
+                return ast.copy_location(ast.Constant(value=not node.operand.value), node)
+            return node
+
+    for f in index.all_functions():
+        sg = pinned.get(f.site)
+        if sg is None:
+            continue
+        a = f.node.args
+        if f.name in star_calls:
+            continue
+        old = set(sg["pos"]) | set(sg["kwonly"])
+        cands = []
+        npos = len(a.args)
+        for j, x in enumerate(a.args):
+            dj = j - (npos - len(a.defaults))
+            if x.arg not in old and dj >= 0:
+                # positional: no call passes that many arguments (self is not counted at method call sites)
+                is_method = bool(a.args) and a.args[0].arg in ("self", "cls")
+                cal_ = f.name if f.name != "__init__" else f.site.split("::")[1].split(".")[0]
+                if max(pos_count.get(cal_, 0), pos_count.get("__init__", 0) if f.name == "__init__" else 0) <= j - (1 if is_method else 0):
+                    cands.append((x.arg, a.defaults[dj]))
+        for x, d in zip(a.kwonlyargs, a.kw_defaults):
+            if x.arg not in old and d is not None:
+                cands.append((x.arg, d))
+        callee = f.name if f.name != "__init__" else f.site.split("::")[1].split(".")[0]
+        for pname, d in cands:
+            v = const_of(d)
+            if v is const_of or pname in kw_passed.get(callee, ()) or (f.name == "__init__" and pname in kw_passed.get("__init__", ())):
+                continue
+            body, changed, _ = read_block(list(f.node.body), pname, v)
+            if not changed:
+                continue
+            # a bare `return` closing the function says nothing
+            while body and isinstance(body[-1], ast.Return) and body[-1].value is None:
+                body.pop()
+            if not body:
+                body = [ast.Pass()]
+            f.node.body = body
+            done.setdefault(f.site, []).append(pname)
+    return done
+
+
 # ---- functools.partial, map(), divmod() --------------------------------------------------------------------------------------------
 def desugar_functional_idioms(index):
     """Three spellings that only abbreviate:
@@ -1184,6 +1332,191 @@ def desugar_functional_idioms(index):
             drop(f.node.body)
         if count:
             done[f.site] = count
+    return done
+
+
+# ---- Counter lookups, lists of records built by one comprehension ----------------------------------------------------------------
+def _own_walk(fn):
+    """Nodes of a function, nested function / class bodies excluded."""
+    todo = list(fn.body)
+    while todo:
+        n = todo.pop()
+        yield n
+        for c in ast.iter_child_nodes(n):
+            if not isinstance(c, (ast.FunctionDef, ast.AsyncFunctionDef, ast.ClassDef, ast.Lambda)):
+                todo.append(c)
+
+
+def desugar_counters(index):
+    """`C = Counter(ITER)` bound once and only ever read as `C[x]`: the number of occurrences of x in ITER, `list(ITER).count(x)`.
+    The local becomes the list and every lookup a `.count()` (a missing key counts 0 either way)."""
+    done = {}
+    for f in index.all_functions():
+        binds = {}
+        for n in _own_walk(f.node):
+            if isinstance(n, ast.Assign) and len(n.targets) == 1 and isinstance(n.targets[0], ast.Name):
+                binds.setdefault(n.targets[0].id, []).append(n)
+            elif isinstance(n, (ast.AugAssign, ast.AnnAssign, ast.For, ast.NamedExpr, ast.withitem, ast.comprehension)):
+                for t in ast.walk(getattr(n, "target", None) or getattr(n, "optional_vars", None) or ast.Pass()):
+                    if isinstance(t, ast.Name):
+                        binds.setdefault(t.id, []).append(None)
+        for name, bs in binds.items():
+            if len(bs) != 1 or bs[0] is None:
+                continue
+            v = bs[0].value
+            if not (isinstance(v, ast.Call) and ast.unparse(v.func) in ("Counter", "collections.Counter") and len(v.args) == 1 and not v.keywords):
+                continue
+            it = v.args[0]
+            if not isinstance(it, (ast.ListComp, ast.GeneratorExp, ast.Name)):
+                continue
+            uses = [n for n in ast.walk(f.node) if isinstance(n, ast.Name) and n.id == name and isinstance(n.ctx, ast.Load)]
+            subs = [n for n in ast.walk(f.node) if isinstance(n, ast.Subscript) and isinstance(n.value, ast.Name) and n.value.id == name and
+                    isinstance(n.ctx, ast.Load) and not isinstance(n.slice, ast.Slice)]
+            if not uses or len(uses) != len(subs):
+                continue
+            if isinstance(it, ast.Name):
+                bs[0].value = ast.Call(func=ast.Name(id="list", ctx=ast.Load()), args=[it], keywords=[])
+            else:
+                bs[0].value = ast.ListComp(elt=it.elt, generators=it.generators)
+
+            class T(ast.NodeTransformer):
+                def visit_Subscript(self, node):
+                    self.generic_visit(node)
+                    if isinstance(node.value, ast.Name) and node.value.id == name and isinstance(node.ctx, ast.Load) and not isinstance(node.slice, ast.Slice):
+                        return ast.copy_location(ast.Call(func=ast.Attribute(value=node.value, attr="count", ctx=ast.Load()),
+                                                          args=[node.slice], keywords=[]), node)
+                    return node
+            T().visit(f.node)
+            ast.fix_missing_locations(f.node)
+            done.setdefault(f.site, []).append(name)
+    return done
+
+
+_MAP_PURE_CALLS = ("str", "int", "len", "tuple", "list", "sorted", "min", "max", "repr", "bool", "range", "isinstance", "Shape.cast", "slice",
+                   "exact_log2", "ceil_log2")
+_MUTATORS = ("append", "add", "extend", "insert", "pop", "remove", "clear", "update", "setdefault", "freeze", "popitem", "discard", "sort", "reverse")
+
+
+def _map_pure(e):
+    for n in ast.walk(e):
+        if isinstance(n, (ast.Lambda, ast.Yield, ast.YieldFrom, ast.Await, ast.NamedExpr)):
+            return False
+        if isinstance(n, ast.Call):
+            if isinstance(n.func, ast.Attribute) and n.func.attr in ("join", "format") and isinstance(n.func.value, ast.Constant):
+                continue
+            if ast.unparse(n.func) not in _MAP_PURE_CALLS:
+                return False
+    return True
+
+
+def fuse_record_lists(index):
+    """`X = [(E1, ..., En) for T in S]` (one generator, no filter, pure elements), X bound once, never mutated and only ever iterated
+    -- `for U in X:` statements and `for U in X` comprehension clauses with U a tuple of n names.  Iterating X is iterating S with
+    U bound to the record: a statement loop becomes `for T' in S: U = (E1', ..., En'); ...` (T renamed apart), a comprehension
+    clause becomes `for T' in S` with U's names replaced by the components.  S must not be mutated by the loop bodies (no mutating
+    method call or store rooted at S's base name)."""
+    done = {}
+    counter = [0]
+    for f in index.all_functions():
+        binds = {}
+        for n in _own_walk(f.node):
+            if isinstance(n, ast.Assign) and len(n.targets) == 1 and isinstance(n.targets[0], ast.Name):
+                binds.setdefault(n.targets[0].id, []).append(n)
+            elif isinstance(n, (ast.AugAssign, ast.AnnAssign, ast.For, ast.NamedExpr, ast.withitem, ast.comprehension, ast.Assign)):
+                tg = n.targets if isinstance(n, ast.Assign) else [getattr(n, "target", None) or getattr(n, "optional_vars", None) or ast.Pass()]
+                for t0 in tg:
+                    for t in ast.walk(t0):
+                        if isinstance(t, ast.Name) and isinstance(t.ctx, ast.Store):
+                            binds.setdefault(t.id, []).append(None)
+        for name, bs in list(binds.items()):
+            if len(bs) != 1 or bs[0] is None:
+                continue
+            v = bs[0].value
+            if not (isinstance(v, ast.ListComp) and len(v.generators) == 1 and not v.generators[0].ifs and not v.generators[0].is_async and
+                    isinstance(v.elt, ast.Tuple) and len(v.elt.elts) >= 2 and _map_pure(v.elt) and _map_pure(v.generators[0].iter)):
+                continue
+            gen = v.generators[0]
+            n_el = len(v.elt.elts)
+            tnames = [t.id for t in ast.walk(gen.target) if isinstance(t, ast.Name)]
+            loads = [n for n in ast.walk(f.node) if isinstance(n, ast.Name) and n.id == name and isinstance(n.ctx, ast.Load)]
+            fors = [n for n in ast.walk(f.node) if isinstance(n, ast.For) and isinstance(n.iter, ast.Name) and n.iter.id == name]
+            comps = [(c, g) for c in ast.walk(f.node) if isinstance(c, (ast.ListComp, ast.GeneratorExp, ast.SetComp))
+                     for g in c.generators if isinstance(g.iter, ast.Name) and g.iter.id == name]
+            if not loads or len(loads) != len(fors) + len(comps):
+                continue
+
+            def tuple_of_names(t):
+                return isinstance(t, ast.Tuple) and len(t.elts) == n_el and all(isinstance(x, ast.Name) for x in t.elts)
+            if not all(tuple_of_names(n.target) and not n.orelse for n in fors) or not all(tuple_of_names(g.target) and len(c.generators) == 1 for c, g in comps):
+                continue
+            root = gen.iter
+            while isinstance(root, (ast.Attribute, ast.Subscript, ast.Call)):
+                root = root.func if isinstance(root, ast.Call) else root.value
+            rootname = root.id if isinstance(root, ast.Name) else None
+
+            def mutates(body):
+                for st in body:
+                    for x in ast.walk(st):
+                        if isinstance(x, (ast.Attribute, ast.Subscript)) and isinstance(x.ctx, (ast.Store, ast.Del)):
+                            r = x
+                            while isinstance(r, (ast.Attribute, ast.Subscript)):
+                                r = r.value
+                            if isinstance(r, ast.Name) and r.id == rootname:
+                                return True
+                        if isinstance(x, ast.Call) and isinstance(x.func, ast.Attribute) and x.func.attr in _MUTATORS:
+                            r = x.func.value
+                            while isinstance(r, (ast.Attribute, ast.Subscript, ast.Call)):
+                                r = r.func if isinstance(r, ast.Call) else r.value
+                            if isinstance(r, ast.Name) and r.id == rootname:
+                                return True
+                return False
+            # the span between the binding and each loop must not touch S either: keep it simple -- the whole function
+            if rootname is None or mutates(f.node.body):
+                continue
+
+            def fresh():
+                counter[0] += 1
+                k = counter[0]
+                mp = {t: f"_r{k}_{t}" for t in tnames}
+
+                class R(ast.NodeTransformer):
+                    def visit_Name(self, node):
+                        if node.id in mp:
+                            return ast.copy_location(ast.Name(id=mp[node.id], ctx=node.ctx), node)
+                        return node
+                import copy
+                return R().visit(copy.deepcopy(gen.target)), R().visit(copy.deepcopy(v.elt)), copy.deepcopy(gen.iter)
+            for n in fors:
+                tgt, elt, it = fresh()
+                asg = ast.Assign(targets=[n.target], value=elt)
+                n.target = tgt
+                n.iter = it
+                n.body = [ast.copy_location(asg, n.body[0])] + n.body
+            for c, g in comps:
+                tgt, elt, it = fresh()
+                mp = {u.id: e_ for u, e_ in zip(g.target.elts, elt.elts) if u.id != "_"}
+
+                class S2(ast.NodeTransformer):
+                    def visit_Name(self, node):
+                        if isinstance(node.ctx, ast.Load) and node.id in mp:
+                            import copy
+                            return copy.deepcopy(mp[node.id])
+                        return node
+                if isinstance(c, (ast.ListComp, ast.GeneratorExp, ast.SetComp)):
+                    c.elt = S2().visit(c.elt)
+                g.ifs = [S2().visit(x) for x in g.ifs]
+                g.target = tgt
+                g.iter = it
+            # the list itself is no longer read
+            for blk in ast.walk(f.node):
+                for fld in ("body", "orelse", "finalbody"):
+                    b = getattr(blk, fld, None)
+                    if isinstance(b, list) and bs[0] in b:
+                        b.remove(bs[0])
+                        if not b:
+                            b.append(ast.Pass())
+            ast.fix_missing_locations(f.node)
+            done.setdefault(f.site, []).append(name)
     return done
 
 
@@ -1487,6 +1820,10 @@ def positional_calls(index):
 _PURE_CALLS = ("flipped", "slice", "max", "min", "len", "int", "bool", "tuple", "range", "abs", "isinstance", "exact_log2", "ceil_log2", "Shape.cast")
 
 
+import re as _re
+_MEMO_DECORATOR = _re.compile(r"^(functools\.)?(cache|lru_cache(\(.*\))?)$")
+
+
 def _pure_expr(e):
     for n in ast.walk(e):
         if isinstance(n, (ast.Lambda, ast.Yield, ast.YieldFrom, ast.Await, ast.NamedExpr, ast.ListComp, ast.GeneratorExp, ast.DictComp, ast.SetComp)):
@@ -1514,7 +1851,9 @@ def open_pure_functions(index):
         f = fs[0]
         import os as _os
         private_module = _os.path.basename(f.module.rel).startswith("_") and not _os.path.basename(f.module.rel).startswith("__")
-        if f.site in _anchors() or f.decorators or (not name.startswith("_") and not private_module) or name.startswith("__"):
+        # memoising a pure function of hashable arguments (functools.cache / lru_cache) changes nothing it returns
+        decos = [d for d in f.decorators if not _MEMO_DECORATOR.match(d)]
+        if f.site in _anchors() or decos or (not name.startswith("_") and not private_module) or name.startswith("__"):
             continue
         a = f.node.args
         if a.vararg or a.kwarg or a.posonlyargs:
@@ -1523,6 +1862,19 @@ def open_pure_functions(index):
         if len(body) != 1 or not isinstance(body[0], ast.Return) or body[0].value is None or not _pure_expr(body[0].value):
             continue
         params = [x.arg for x in a.args + a.kwonlyargs]
+        if len(decos) != len(f.decorators):
+            # ... provided the arguments are hashable: every parameter is used as a number (operand of arithmetic or of a comparison,
+            # argument of a numeric built-in), so an unhashable argument is refused with or without the cache
+            numeric = set()
+            for n in ast.walk(body[0].value):
+                kids = []
+                if isinstance(n, ast.BinOp) and not isinstance(n.op, (ast.Add, ast.Mult, ast.Mod)):
+                    kids = [n.left, n.right]
+                elif isinstance(n, ast.Call) and ast.unparse(n.func) in ("exact_log2", "ceil_log2", "abs", "range", "int.bit_length"):
+                    kids = list(n.args)
+                numeric |= {k.id for k in kids if isinstance(k, ast.Name)}
+            if not set(params) <= numeric:
+                continue
         free = {n.id for n in ast.walk(body[0].value) if isinstance(n, ast.Name)} - set(params)
         ext = {al.asname or al.name.split(".")[0] for s_ in f.module.tree.body if isinstance(s_, (ast.Import, ast.ImportFrom)) for al in s_.names}
         if any(nm not in f.module.imports and nm not in ext and nm not in f.module.classes and nm not in ("slice", "max", "min", "len", "int", "bool", "tuple", "range",
